@@ -323,8 +323,10 @@ def layout_fn(prog, plan=None):
     return s
 
 
-def method_body(prog, mid, it, m, calls):
-    """calls: list of {"args": {...}, "self": ..., "ret": ...}"""
+def method_body(prog, mid, it, m, calls, reject=None):
+    """calls: list of {"args": {...}, "self": ..., "ret": ...}; calls for which reject(m, c) holds never reach Rust"""
+    if reject is not None:
+        calls = [c for c in calls if not reject(m, c)]
     lines = ["use super::{dv_log, dv_next, dv_hex};", "let __k = dv_next(%d);" % mid]
     parts = []
     if m["self"] is not None:
@@ -627,7 +629,21 @@ def add_support_methods(prog):
         ir.default_order(mod)
 
 
-def plan_calls(draw, prog, ncalls):
+BAD_UTF8 = [[0xC0, 0x80], [0xC1, 0xBF], [0xE0, 0x80, 0x80], [0xED, 0xA0, 0x80], [0xED, 0xBF, 0xBF], [0xF0, 0x80, 0x80, 0x80], [0xF4, 0x90, 0x80, 0x80],
+            [0xF5, 0x80, 0x80, 0x80], [0x80], [0xBF], [0xFF], [0xFE], [0xE2, 0x82], [0xF0, 0x9F, 0x98], [0xC3]]
+
+
+def almost_valid_utf8(draw):
+    base = list(draw(TEXT).encode("utf-8"))
+    bad = draw(st.sampled_from(BAD_UTF8))
+    pos = draw(st.integers(0, len(base)))
+    # insert at a character boundary
+    while pos > 0 and pos < len(base) and (base[pos] & 0xC0) == 0x80:
+        pos -= 1
+    return base[:pos] + bad + base[pos:]
+
+
+def plan_calls(draw, prog, ncalls, bad_utf8=False):
     """draw call vectors for every (non-support) method. Returns list of (mid, mod, it, impl, m, [call])"""
     vg = ValueGen(draw, prog)
     plan = []
@@ -650,6 +666,8 @@ def plan_calls(draw, prog, ncalls):
                     c["write"] = vg.value(["write"], "in")
                 elif q[1][0] != "cb":
                     c["args"][q[0]] = vg.value(q[1], "in")
+                    if bad_utf8 and q[1][0] == "str" and q[1][2] == "utf8" and draw(st.integers(0, 2)) == 0:
+                        c["args"][q[0]] = {"bytes": almost_valid_utf8(draw), "null": False}
             if m["ret"] is not None:
                 c["ret"] = vg.value(m["ret"], "out")
             calls.append(c)
@@ -667,11 +685,11 @@ def methods_in_order(prog):
     return out
 
 
-def render_rust(prog, plan):
+def render_rust(prog, plan, reject=None):
     ms = methods_in_order(prog)
     bodies = {}
     for p_, (mod, it, impl, m) in zip(plan, ms):
-        bodies[id(m)] = method_body(prog, p_["mid"], it, m, p_["calls"])
+        bodies[id(m)] = method_body(prog, p_["mid"], it, m, p_["calls"], reject)
 
     def body_fn(m, it):
         return bodies.get(id(m))
@@ -775,7 +793,7 @@ def render_c(prog, plan, protos, header_names, history=None):
     return src
 
 
-def expected_lines(prog, plan, history=None):
+def expected_lines(prog, plan, history=None, reject=None):
     """(ret lines, call-log lines) expected on stdout"""
     ms = methods_in_order(prog)
     rets, logs = [], []
@@ -783,10 +801,16 @@ def expected_lines(prog, plan, history=None):
         sequence = [(pi, k) for pi, p_ in enumerate(plan) for k in range(len(p_["calls"]))]
     else:
         sequence = [tuple(x) for x in history["order"]]
+    accepted = {}
     for pi_, k in sequence:
         p_ = plan[pi_]
         mod, it, impl, m = ms[pi_]
         for c in [p_["calls"][k]]:
+            if reject is not None and reject(m, c):
+                rets.append("ret %d %d utf8err" % (p_["mid"], k))
+                continue
+            kk = accepted.get(pi_, 0)       # index Rust sees: rejected calls never reach it
+            accepted[pi_] = kk + 1
             line = "ret %d %d %s" % (p_["mid"], k, "()" if m["ret"] is None else ser(prog, m["ret"], c["ret"]))
             if m["ret"] is not None and ffi_ret_type(m["ret"]) and not ir.type_lifetimes(m["ret"]):
                 flag = (c["ret"] is not None) if m["ret"][0] == "opt" else c["ret"]["ok"]
@@ -813,7 +837,7 @@ def expected_lines(prog, plan, history=None):
                 if q[1][0] in ("write", "cb"):
                     continue
                 parts.append("%s=%s" % (q[0], ser(prog, q[1], c["args"][q[0]])))
-            logs.append(("call %d %d %s" % (p_["mid"], k, " ".join(parts))).rstrip() if parts else "call %d %d " % (p_["mid"], k))
+            logs.append(("call %d %d %s" % (p_["mid"], kk, " ".join(parts))).rstrip() if parts else "call %d %d " % (p_["mid"], kk))
     return rets, logs
 
 
